@@ -20,6 +20,8 @@ type (
 		totalQPSLimiterLock   sync.RWMutex
 		handlerQPSLimiter     map[string]*qpsLimiter
 		handlerQPSLimiterLock sync.RWMutex
+		// sessions that hold a connection slot
+		connHolders sync.Map
 	}
 	// LimitConfig overload limitation condition
 	LimitConfig struct {
@@ -68,8 +70,11 @@ func (o *Overloader) PostDial(sess erpc.PreSession, isRedial bool) *erpc.Status 
 
 // PostAccept checks connection overload.
 // If overload, print error log and close the connection.
-func (o *Overloader) PostAccept(_ erpc.PreSession) *erpc.Status {
-	if o.takeConn() {
+func (o *Overloader) PostAccept(sess erpc.PreSession) *erpc.Status {
+	if ok, took := o.takeConnSlot(); ok {
+		if took {
+			o.connHolders.Store(sess, struct{}{})
+		}
 		return nil
 	}
 	msg := fmt.Sprintf("connection overload, limit=%d, now=%d",
@@ -79,8 +84,13 @@ func (o *Overloader) PostAccept(_ erpc.PreSession) *erpc.Status {
 }
 
 // PostDisconnect releases connection count.
-func (o *Overloader) PostDisconnect(_ erpc.BaseSession) *erpc.Status {
-	o.releaseConn()
+func (o *Overloader) PostDisconnect(sess erpc.BaseSession) *erpc.Status {
+	// only a session that was admitted holds a slot: a rejected connection
+	// (which is closed, and so gets here too) must not release one
+	if _, ok := o.connHolders.Load(sess); ok {
+		o.connHolders.Delete(sess)
+		o.releaseConn()
+	}
 	return nil
 }
 
@@ -186,10 +196,22 @@ func (o *Overloader) updateHandlerLimiter(limitConfig *LimitConfig) {
 }
 
 func (o *Overloader) takeConn() bool {
+	ok, _ := o.takeConnSlot()
+	return ok
+}
+
+// takeConnSlot reports whether the connection is admitted (ok) and whether it
+// occupies a slot of the connection limiter (took; false if there is no limit).
+func (o *Overloader) takeConnSlot() (ok, took bool) {
 	o.connLimiterLock.RLock()
-	bol := o.connLimiter == nil || o.connLimiter.take()
+	if o.connLimiter == nil {
+		ok = true
+	} else {
+		took = o.connLimiter.take()
+		ok = took
+	}
 	o.connLimiterLock.RUnlock()
-	return bol
+	return ok, took
 }
 
 func (o *Overloader) releaseConn() {
